@@ -27,6 +27,30 @@ def annotated_fn(lr: typing.Annotated[float, targets.T1] = 0.1,
   return targets.Rec('annotated_fn', [('lr', lr), ('wd', wd), ('name', name), ('sub', sub)], (), {})
 
 
+_HOOKS = ['default-hook']
+_OPTS = {'dropout': 0.1}
+
+
+def mutable_defaults_fn(hooks=_HOOKS, opts=_OPTS, name='n', sub=None):
+  return targets.Rec('mutable_defaults_fn', [('hooks', hooks), ('opts', opts), ('name', name), ('sub', sub)], (), {})
+
+
+def materialized_root(r):
+  """A configuration whose arguments ARE the callable's (mutable) default objects, as after
+  materialize_defaults or `cfg.x = cfg.x`."""
+  from fiddle._src import materialize
+  inner = fdl.Config(mutable_defaults_fn, name='inner')
+  root = fdl.Config(mutable_defaults_fn, name='outer', sub=[inner, {'k': inner}])
+  if r.random() < 0.5:
+    materialize.materialize_defaults(root)
+  else:
+    root.hooks = root.hooks
+    inner.opts = inner.opts
+  if r.random() < 0.5:
+    materialize.materialize_defaults(inner)
+  return root
+
+
 def annotated_root(r):
   """A configuration over a callable whose parameters carry tags through Annotated[...], after
   the user removed / replaced / added some of those tags."""
@@ -85,6 +109,8 @@ def cases(tier, r):
                   'kind': r.choice(KINDS)}
   for _ in range(120 if tier == 'quick' else 2000):
     yield 'annotated', {'graph': True, 'annotated': True, 'seed': r.getrandbits(48), 'kind': r.choice(KINDS)}
+  for _ in range(60 if tier == 'quick' else 1000):
+    yield 'materialized', {'graph': True, 'materialized': True, 'seed': r.getrandbits(48), 'kind': r.choice(KINDS)}
 
 
 def mutable_ids(root, deep=True):
@@ -113,6 +139,8 @@ def execute(case):
     r = random.Random(case['seed'])
     if case.get('annotated'):
       root = annotated_root(r)
+    elif case.get('materialized'):
+      root = materialized_root(r)
     else:
       root = graphs.gen_graph(r, size=case['size'], positional=True, tags=True)
     if not isinstance(root, fdl.Buildable):
